@@ -268,6 +268,29 @@ pub trait Dut {
     }
 }
 
+/// a pixel stream whose `size_hint` is exact (0), unknown (1), a loose upper bound (2) or a small
+/// lower bound without an upper one (3) - all of them legal for an Iterator
+pub struct HintedPixels<I> {
+    pub inner: I,
+    pub flavour: u8,
+}
+
+impl<I: Iterator> Iterator for HintedPixels<I> {
+    type Item = I::Item;
+    fn next(&mut self) -> Option<I::Item> {
+        self.inner.next()
+    }
+    fn size_hint(&self) -> (usize, Option<usize>) {
+        let (lo, hi) = self.inner.size_hint();
+        match self.flavour {
+            0 => (lo, hi),
+            1 => (0, None),
+            2 => (0, hi.map(|h| h.saturating_add(7))),
+            _ => (lo.min(2), None),
+        }
+    }
+}
+
 pub struct DutImpl<DI, M, RST>
 where
     DI: Interface,
@@ -391,9 +414,17 @@ where
         r
     }
     fn draw_iter(&mut self, px: &mut dyn Iterator<Item = (i32, i32, u32)>) -> Res {
+        // what the stream reports about its length varies with the stream (a pure function of its first
+        // element): exact, unknown, a loose upper bound, or a small lower bound only
+        let first = px.next();
+        let flavour = match first {
+            Some((x, y, c)) => (((x as u32).wrapping_mul(31) ^ (y as u32).wrapping_mul(17) ^ c ^ (c >> 7)) % 4) as u8,
+            None => 0,
+        };
+        let it = HintedPixels { inner: first.into_iter().chain(px), flavour };
         let r = guard(|| {
             self.d
-                .draw_iter(px.map(|(x, y, c)| Pixel(Point::new(x, y), M::ColorFormat::from_raw(c))))
+                .draw_iter(it.map(|(x, y, c)| Pixel(Point::new(x, y), M::ColorFormat::from_raw(c))))
                 .map_err(|e| DutErr::Bus(e.info()))
         });
         self.w.borrow_mut().flush();
